@@ -248,6 +248,9 @@ func c08Main(args []string) int {
 		fmt.Println(strings.Join(rows, "\n"))
 		return 0
 	}
+	// a registered module whose body is source text: compiled lazily, on the first import by any context
+	py.RegisterModule(&py.ModuleImpl{Info: py.ModuleInfo{Name: "tsrc", FileDesc: "<tsrc>"},
+		CodeSrc: "counter = [0]\nitems = []\ndef bump():\n    counter[0] += 1\n    return counter[0]\n"})
 	raw, _ := io.ReadAll(os.Stdin)
 	var in struct {
 		Programs   []string `json:"programs"`
